@@ -49,13 +49,15 @@ func canonQuery(q string) string {
 }
 
 // Run sends one spelled request through the lab's engine.
-func Run(lab *fedlab.Lab, sp *Spelled) *Obs {
+func Run(lab *fedlab.Lab, sp *Spelled) *Obs { return runHook(lab, sp, nil) }
+
+func runHook(lab *fedlab.Lab, sp *Spelled, hook fedlab.Hook) *Obs {
 	cache := PlanCache(lab.Engine)
 	before := map[any]bool{}
 	for _, k := range cache.Keys() {
 		before[k] = true
 	}
-	res := lab.Run(sp.Text, []byte(sp.Variables), &fedlab.RunOptions{OperationName: sp.OpName})
+	res := lab.Run(sp.Text, []byte(sp.Variables), &fedlab.RunOptions{OperationName: sp.OpName, BeforeRespond: hook})
 	o := &Obs{Raw: string(res.Response), Data: res.Data, Errors: res.Errors}
 	if res.Err != nil {
 		o.Err = res.Err.Error()
